@@ -371,6 +371,8 @@ def run(tier, seed, replay, cfg, verdict, wd, t0):
                           "why": why[-1] if why else ""}
 
     # (i) the as-designed model satisfies the formula
+    if r["violated"] and "SpliceConsistent is violated" in r["out"]:
+        raise L.ToolError("WireShapes: a shape carries the model world's hash without telling the replayer (hashAt)")
     if r["violated"]:
         path = L.save_replay(PID, f"tlc-{cfg['cfg']}.txt", r["out"][-20000:])
         verdict.violation(path, f"TLC: the as-designed model violates JunkSafe under {cfg['cfg']}")
